@@ -368,7 +368,7 @@ def run(ck):
         ck.log(f"quick tier: model re-evaluates {len(pick)} of {len(coq_meta)} cases ({len(strata)} strata)")
         coq_cases = [coq_cases[i] for i in pick]
         coq_meta = [coq_meta[i] for i in pick]
-    bad = ck.coq_cases("parse", IMPORTS, "parse_case_ok", coq_cases, ty="msg_case", defs=DEFS, shard=250)
+    bad = ck.coq_cases("parse", IMPORTS, "parse_case_ok", coq_cases, ty="msg_case", defs=DEFS, shard=120 if ck.quick() else 300)
     ck.bump("model_compared_parse", len(coq_cases))
     ck.log(f"model comparison (parse): {len(coq_cases)} cases, {len(bad)} disagreements")
     groups = {}
@@ -411,7 +411,7 @@ def run(ck):
                 judge_parse(ck, cls, where, desc, raw, s, sn)
             coq_cases.append("(%s, %s)" % (W.to_coq(raw), W.coq_expect(s)))
             coq_meta.append((where, desc, raw, oc, sn))
-    bad = ck.coq_cases("dispatch", IMPORTS, "unser_case_ok", coq_cases, ty="unser_case", defs=DEFS)
+    bad = ck.coq_cases("dispatch", IMPORTS, "unser_case_ok", coq_cases, ty="unser_case", defs=DEFS, shard=60)
     ck.bump("model_compared_dispatch", len(coq_cases))
     ck.log(f"model comparison (dispatch): {len(coq_cases)} cases, {len(bad)} disagreements")
     for i in bad[:5]:
@@ -422,7 +422,7 @@ def run(ck):
 
     # ---------- 3. arbitrary and mutated octet strings
     rng = ck.rng("octets")
-    n_rand, n_mut = (1500, 6000) if ck.quick() else (20000, 120000)
+    n_rand, n_mut = (1500, 4500) if ck.quick() else (20000, 120000)
     seeds = []
     payload = {"op": "parse", "cases": [{"w": W.enc(w), "via": []} for c in W.CLASSES for _, w in W.exemplars(c)]}
     # valid serialized messages to mutate: produced by the harness's own json/msgpack/cbor2 (same libraries)
@@ -464,21 +464,27 @@ def run(ck):
         ck.bump(f"octets:{c['kind']}:{oc}")
         decoded = "raws" in res
         if oc.startswith("Other"):
-            # attribute to the class whose parse raised, if the envelope dispatch got that far
-            where = "octets"
-            if decoded:
-                for raw_e in res["raws"]:
-                    raw = W.dec(raw_e)
-                    if type(raw) is list and raw and type(raw[0]) is int and raw[0] in W.CODE2CLS:
-                        where = W.CODE2CLS[raw[0]] + ".parse"
-            ck.violation(f"Serializer.unserialize/{c['ser']}/{where}/{res['cls']}",
-                         f"{c['ser']} Serializer.unserialize raises {res['cls']} on a {c['kind']} octet string",
+            # attribute to the raw message whose parse raised (the real dispatch was run on each raw separately) and,
+            # through the conformance oracle, to the element that is malformed: same key as the grid finding
+            key = f"Serializer.unserialize/{c['ser']}/octets/{res['cls']}"
+            if decoded and "per_raw" in res:
+                for raw_e, pr in zip(res["raws"], res["per_raw"]):
+                    if pr["k"] == "exc" and pr["cls"] == res["cls"]:
+                        raw = W.dec(raw_e)
+                        if type(raw) is list and raw and type(raw[0]) is int and raw[0] in W.CODE2CLS:
+                            rc = W.CODE2CLS[raw[0]]
+                            bad_el = W.conformance_violations(rc, raw)
+                            wh = bad_el[0][0] if bad_el else "octets"
+                            wh = "enc_*" if wh.startswith("enc_") else wh
+                            key = f"{rc}.parse/{wh}/{res['cls']}"
+                        break
+            ck.violation(key, f"{c['ser']} Serializer.unserialize raises {res['cls']} on a {c['kind']} octet string",
                          {"ser": c["ser"], "batched": c["batched"], "hex": c["hex"], "outcome": res["cls"]}, found_input=True)
         if decoded:
             ck.note_cases(0, [c["hex"]])
             raws = [W.dec(x) for x in res["raws"]]
             # model on every decoded raw message (the real dispatch was run on each of them separately)
-            if len(raws) <= 3 and len(coq_cases) < (4000 if ck.quick() else 30000):
+            if len(raws) <= 3 and len(coq_cases) < (1200 if ck.quick() else 30000):
                 stop = False
                 for raw, pr in zip(raws, res["per_raw"]):
                     coq_cases.append("(%s, %s)" % (W.to_coq(raw), W.coq_expect(pr)))
@@ -497,7 +503,7 @@ def run(ck):
             bcases.append("(%d, [%s], %s)" % (0 if c["ser"] == "json" else 1, ";".join(str(b) for b in data),
                                               "None" if exp is None else "(Some [" + ";".join("[" + ";".join(str(b) for b in ch) + "]" for ch in exp) + "])"))
             bmeta.append(c)
-    bad = ck.coq_cases("octets", IMPORTS, "unser_case_ok", coq_cases, ty="unser_case", defs=DEFS)
+    bad = ck.coq_cases("octets", IMPORTS, "unser_case_ok", coq_cases, ty="unser_case", defs=DEFS, shard=80 if ck.quick() else 300)
     ck.bump("model_compared_octets", len(coq_cases))
     ck.log(f"octets: {len(cases)} strings; model comparison on {len(coq_cases)} decoded structures, {len(bad)} disagreements")
     for i in bad[:5]:
@@ -505,7 +511,7 @@ def run(ck):
         ck.violation(f"Serializer.unserialize/{c['ser']}/octets/model-disagrees/{oc}",
                      f"implementation ({oc}) and model disagree on a decoded {c['kind']} octet string",
                      {"ser": c["ser"], "batched": c["batched"], "hex": c["hex"], "correspondence": "unser_case_ok"}, found_input=False)
-    badb = ck.coq_cases("framing", IMPORTS, "batch_case_ok", bcases, ty="batch_case", defs=DEFS)
+    badb = ck.coq_cases("framing", IMPORTS, "batch_case_ok", bcases, ty="batch_case", defs=DEFS, shard=100)
     ck.bump("model_compared_framing", len(bcases))
     ck.log(f"batch framing: {len(bcases)} octet strings split by the model, {len(badb)} disagreements")
     for i in badb[:3]:
